@@ -219,41 +219,12 @@ func (w *world) faults() {
 		}
 
 		msg := mutate(orig)
-		r := w.readMessage(msg, w.ring, s.pass, []int{0, 1, 22, 23, 4096}[ji%5])
-		switch {
-		case r.panicked:
-			c.Violation("ReadMessage / body read panics on a faulted message", detail(map[string]any{"panic": r.panicVal, "stack": r.stack}))
-		case r.parseErr != nil:
-			c.Outcome("rejected by ReadMessage")
-		case r.bodyErr != nil:
-			if strings.Contains(r.bodyErr.Error(), "step budget") {
-				c.Violation("reading the body of a faulted message does not terminate", detail(nil))
-				return
-			}
-			c.Outcome("body read error (" + errClass(r.bodyErr) + ")")
-		default:
-			same := bytes.Equal(r.plaintext, s.msg)
-			md := r.md
-			encrypted := s.op != "sign"
-			if md.SignatureError != nil {
-				c.Outcome("EOF reached, SignatureError set")
-				return
-			}
-			verified := md.IsSigned && md.SignedBy != nil
-			switch {
-			case same:
-				c.Outcome("EOF reached, identical plaintext (fault in unauthenticated framing)")
-				mu.Lock()
-				identical[fmt.Sprintf("%d:%s", j.rep, s.op)] = append(identical[fmt.Sprintf("%d:%s", j.rep, s.op)], j.off)
-				mu.Unlock()
-			case encrypted:
-				c.Violation("modified integrity-protected (MDC) message read to EOF without error yields DIFFERENT plaintext", detail(map[string]any{"plaintext": string(clip(r.plaintext, 200)), "IsSigned": md.IsSigned}))
-			case verified:
-				c.Violation("modified signed message read to EOF yields DIFFERENT plaintext with no signature error", detail(map[string]any{"plaintext": string(clip(r.plaintext, 200))}))
-			default:
-				// signed-only message whose fault removed the signature framing: reported as unsigned / unknown signer
-				c.Outcome("EOF reached, different plaintext but reported as NOT verified (IsSigned=false or SignedBy=nil)")
-			}
+		readSizes := []int{[]int{0, 1, 22, 23, 4096}[ji%5]}
+		if c.Thorough {
+			readSizes = []int{0, 1, 22, 23, 4096} // thorough: every fault with every read size
+		}
+		for _, rs := range readSizes {
+			w.judgeFault(j.rep, j.off, s, msg, rs, detail, &mu, identical)
 		}
 	})
 	ranges := map[string]string{}
@@ -264,6 +235,47 @@ func (w *world) faults() {
 	c.Set("offsets_where_faults_normalise_away", ranges)
 	if c.WantSample() {
 		c.Sample(map[string]any{"part": "faults", "representative": reps[0].String(), "message_hex": fmt.Sprintf("%x", outs[0]), "faults": "every offset x {b^1,b^0x80,b^0x1B} and every truncation"})
+	}
+}
+
+// judgeFault reads one faulted message with one read size and classifies the outcome.
+func (w *world) judgeFault(rep, off int, s spec, msg []byte, readSize int, detail func(map[string]any) map[string]any, mu *sync.Mutex, identical map[string][]int) {
+	c := w.c
+	r := w.readMessage(msg, w.ring, s.pass, readSize)
+	switch {
+	case r.panicked:
+		c.Violation("ReadMessage / body read panics on a faulted message", detail(map[string]any{"panic": r.panicVal, "stack": r.stack}))
+	case r.parseErr != nil:
+		c.Outcome("rejected by ReadMessage")
+	case r.bodyErr != nil:
+		if strings.Contains(r.bodyErr.Error(), "step budget") {
+			c.Violation("reading the body of a faulted message does not terminate", detail(nil))
+			return
+		}
+		c.Outcome("body read error (" + errClass(r.bodyErr) + ")")
+	default:
+		same := bytes.Equal(r.plaintext, s.msg)
+		md := r.md
+		encrypted := s.op != "sign"
+		if md.SignatureError != nil {
+			c.Outcome("EOF reached, SignatureError set")
+			return
+		}
+		verified := md.IsSigned && md.SignedBy != nil
+		switch {
+		case same:
+			c.Outcome("EOF reached, identical plaintext (fault in unauthenticated framing)")
+			mu.Lock()
+			identical[fmt.Sprintf("%d:%s", rep, s.op)] = append(identical[fmt.Sprintf("%d:%s", rep, s.op)], off)
+			mu.Unlock()
+		case encrypted:
+			c.Violation("modified integrity-protected (MDC) message read to EOF without error yields DIFFERENT plaintext", detail(map[string]any{"plaintext": string(clip(r.plaintext, 200)), "IsSigned": md.IsSigned}))
+		case verified:
+			c.Violation("modified signed message read to EOF yields DIFFERENT plaintext with no signature error", detail(map[string]any{"plaintext": string(clip(r.plaintext, 200))}))
+		default:
+			// signed-only message whose fault removed the signature framing: reported as unsigned / unknown signer
+			c.Outcome("EOF reached, different plaintext but reported as NOT verified (IsSigned=false or SignedBy=nil)")
+		}
 	}
 }
 
